@@ -273,7 +273,11 @@ func mutationsFor(q *pdkg.GossipPacket) []string {
 func (h *hist) mutatePacket(p *pdkg.GossipPacket) (*pdkg.GossipPacket, string) {
 	muts := mutationsFor(p)
 	m := muts[h.rng.Intn(len(muts))]
-	return h.applyMutation(p, m), m
+	q := h.applyMutation(p, m)
+	if proto.Equal(p, q) {
+		return q, "none" // the alteration does not apply to this packet
+	}
+	return q, m
 }
 
 func (h *hist) applyMutation(p *pdkg.GossipPacket, m string) *pdkg.GossipPacket {
@@ -357,7 +361,9 @@ func (h *hist) sweep(i int, p *pdkg.GossipPacket, what string, from int) {
 		return
 	}
 	for _, m := range mutationsFor(p) {
-		h.packet(i, h.applyMutation(p, m), what+":mutated:"+m, h.role(i, from))
+		if q := h.applyMutation(p, m); !proto.Equal(p, q) {
+			h.packet(i, q, what+":mutated:"+m, h.role(i, from))
+		}
 	}
 	h.packet(i, p, what, h.role(i, from))
 }
@@ -372,6 +378,17 @@ func (h *hist) forged(target int, kind string, claimed, signer *ident) *pdkg.Gos
 		p = &pdkg.GossipPacket{Packet: &pdkg.GossipPacket_Accept{Accept: &pdkg.AcceptProposal{Acceptor: proto.Clone(claimed.part).(*pdkg.Participant)}}}
 	case "reject":
 		p = &pdkg.GossipPacket{Packet: &pdkg.GossipPacket_Reject{Reject: &pdkg.RejectProposal{Rejector: proto.Clone(claimed.part).(*pdkg.Participant)}}}
+	case "accept-other", "reject-other":
+		// the sender vouches for somebody else's answer: acceptor/rejector is another participant
+		o := h.w.ids[h.rng.Intn(len(h.w.ids))]
+		for o == claimed {
+			o = h.w.ids[h.rng.Intn(len(h.w.ids))]
+		}
+		if kind == "accept-other" {
+			p = &pdkg.GossipPacket{Packet: &pdkg.GossipPacket_Accept{Accept: &pdkg.AcceptProposal{Acceptor: proto.Clone(o.part).(*pdkg.Participant)}}}
+		} else {
+			p = &pdkg.GossipPacket{Packet: &pdkg.GossipPacket_Reject{Reject: &pdkg.RejectProposal{Rejector: proto.Clone(o.part).(*pdkg.Participant)}}}
+		}
 	case "execute":
 		p = &pdkg.GossipPacket{Packet: &pdkg.GossipPacket_Execute{Execute: &pdkg.StartExecution{Time: timestamppb.New(time.Now().Add(1000 * time.Hour))}}}
 	case "abort":
@@ -398,10 +415,10 @@ func (h *hist) chaos() {
 			h.packet(i, p, "replay", "pool")
 		} else {
 			q, m := h.mutatePacket(p)
-			h.packet(i, q, "mutated:"+m, "pool")
+			h.packet(i, q, "pool:"+mutLabel(m), "pool")
 		}
 	case 2, 3, 4: // forged control packet: claimed sender x signing key
-		kinds := []string{"accept", "reject", "execute", "abort", "none"}
+		kinds := []string{"accept", "reject", "execute", "abort", "none", "accept-other", "reject-other"}
 		kind := kinds[h.rng.Intn(len(kinds))]
 		claimed := h.w.ids[h.rng.Intn(len(h.w.ids))]
 		signer := claimed
@@ -432,6 +449,13 @@ func (h *hist) chaos() {
 	}
 }
 
+func mutLabel(m string) string {
+	if m == "none" {
+		return "unaltered"
+	}
+	return "mutated:" + m
+}
+
 func indexOf(ids []*ident, x *ident) int {
 	for i, v := range ids {
 		if v == x {
@@ -457,7 +481,7 @@ func (h *hist) deliver(p *pdkg.GossipPacket, to []int, what string, from int) {
 		switch {
 		case r < 8:
 			q, m := h.mutatePacket(p)
-			h.packet(i, q, what+":mutated:"+m, h.role(i, from))
+			h.packet(i, q, what+":"+mutLabel(m), h.role(i, from))
 			h.packet(i, p, what, h.role(i, from))
 		case r < 14:
 			h.packet(i, p, what, h.role(i, from))
